@@ -2,9 +2,13 @@
 package p_mixer
 
 import (
+	"errors"
 	"fmt"
+	"io"
 
+	"github.com/acquirecloud/golibs"
 	"github.com/acquirecloud/golibs/container/iterable"
+	gerrors "github.com/acquirecloud/golibs/errors"
 	"verifharness/internal/vstat"
 )
 
@@ -37,6 +41,72 @@ func IsValueKind(kind string) bool {
 	return kind == KValFunc || kind == KValFuncNoReset || kind == KValSlice || kind == KValCmp
 }
 
+// Flaky describes a source whose Reset fails TRANSIENTLY (golibs.Reseter: "Result may indicate about an error during
+// the reset"): the first K calls of its Reset method return an error of class Err and leave the source where it is,
+// every later call rewinds it. K <= 0 = an ordinary source. Applies to the kinds that have a Reset method; the source
+// is then the kind's iterator behind a pointer wrapper that forwards every other call.
+type Flaky struct {
+	K   int    `json:"k"`
+	Err string `json:"err,omitempty"`
+}
+
+// FlakyErrs are the classes of errors a failing Reset returns: library error classes (bare or wrapped) and plain errors.
+var FlakyErrs = []string{"unimplemented", "unimplemented_wrapped", "dataloss", "dataloss_wrapped", "internal", "plain", "eof"}
+
+func flakyErr(class string) error {
+	switch class {
+	case "unimplemented":
+		return gerrors.ErrUnimplemented
+	case "unimplemented_wrapped":
+		return fmt.Errorf("cannot rewind right now: %w", gerrors.ErrUnimplemented)
+	case "dataloss":
+		return gerrors.ErrDataLoss
+	case "dataloss_wrapped":
+		return fmt.Errorf("cannot rewind right now: %w", gerrors.ErrDataLoss)
+	case "internal":
+		return gerrors.ErrInternal
+	case "eof":
+		return io.EOF
+	case "", "plain":
+		return errors.New("cannot rewind right now")
+	}
+	panic("bad error class " + class)
+}
+
+// flaky is the wrapper of a transiently failing source.
+type flaky struct {
+	it    iterable.Iterator[int]
+	left  int // Reset calls that will still fail
+	err   error
+	fails int // Reset calls that failed
+	oks   int // Reset calls that went through
+}
+
+func (f *flaky) HasNext() bool     { return f.it.HasNext() }
+func (f *flaky) Next() (int, bool) { return f.it.Next() }
+func (f *flaky) Close() error      { return f.it.Close() }
+func (f *flaky) Reset() error {
+	if f.left > 0 {
+		f.left--
+		f.fails++
+		return f.err
+	}
+	f.oks++
+	return f.it.(golibs.Reseter).Reset()
+}
+
+// flakySource is source() with the transient Reset failures of fl (nil or K<=0: none). fw is nil when no wrapper was used.
+func flakySource(kind string, s []int, fl *Flaky) (it iterable.Iterator[int], fw *flaky) {
+	it = source(kind, s)
+	if fl == nil || fl.K <= 0 || !CanReset(kind) {
+		return it, nil
+	}
+	fw = &flaky{it: it, left: fl.K, err: flakyErr(fl.Err)}
+	return fw, fw
+}
+
+func (fl *Flaky) active(kind string) bool { return fl != nil && fl.K > 0 && CanReset(kind) }
+
 // Case is two value sequences, the kind of source each is served from, a selector and a call program:
 // one letter per call, h = HasNext, n = Next, r = Reset, i = Init again on the same Mixer value with fresh
 // iterators (same kinds) over the other pair of inputs: the first i switches to (A2,B2), the next one back
@@ -56,6 +126,9 @@ type Case struct {
 	KB   string `json:"kb"`
 	Sel  string `json:"sel"`
 	Prog string `json:"prog"`
+	// FA / FB: transient Reset failures of the source of input 1 / 2 (every Init makes fresh sources with the full count).
+	FA *Flaky `json:"flaky_a,omitempty"`
+	FB *Flaky `json:"flaky_b,omitempty"`
 }
 
 // Info is what the classifier needs.
@@ -87,6 +160,14 @@ type Info struct {
 	ValueKind     bool // an input is a value-type (non-pointer) iterator
 	SameValueKind bool // both inputs are value-type iterators of one and the same type
 	ResetOK       bool // a Reset succeeded
+	// transient Reset failures of the sources
+	FlakyA, FlakyB     bool   // the source of input 1 / 2 fails its first Reset calls
+	FlakyErr           string // class of the error(s)
+	ResetTransient     bool   // Reset was called on the mixer while a source still had a failure to deliver
+	LimboCalls         int    // HasNext/Next calls between a failed Reset and the next Reset that both sources accepted (not judged)
+	ResetRecovered     bool   // a Reset that both sources accepted followed a failed one (the merge must restart completely)
+	RecoveredAfterRead bool   // ... with HasNext/Next calls in between
+	RecoveredAtEnd     bool   // ... made by the harness after the program (the program ended between the two)
 }
 
 // element encoding: value<<21 | 1<<20 | generation<<14 | side<<13 | index, so every element of a case is unique
@@ -301,8 +382,8 @@ func run(c Case, info *Info) *vstat.Violation {
 	}
 	sel := selector(c.Sel)
 	resettable := CanReset(c.KA) && CanReset(c.KB)
-	info.ValueKind = IsValueKind(c.KA) || IsValueKind(c.KB)
-	info.SameValueKind = IsValueKind(c.KA) && c.KA == c.KB
+	info.ValueKind = IsValueKind(c.KA) && !c.FA.active(c.KA) || IsValueKind(c.KB) && !c.FB.active(c.KB)
+	info.SameValueKind = IsValueKind(c.KA) && c.KA == c.KB && !c.FA.active(c.KA) && !c.FB.active(c.KB)
 	info.PhantomAny = c.KA == KDisparity || c.KB == KDisparity
 
 	// reference state: the current inputs and two pointers
@@ -313,9 +394,10 @@ func run(c Case, info *Info) *vstat.Violation {
 	// current heads of the two inputs, so it must be asked about exactly (head of input 1, head of input 2)
 	// and never when an input has no head (zero value, stale or already emitted element).
 	var selViol *vstat.Violation
+	limbo := false // see below: between a failed Reset and the next one that both sources accept
 	checking := func(x, y int) bool {
 		info.SelCalls++
-		if selViol == nil {
+		if selViol == nil && !limbo {
 			switch {
 			case i >= len(a) || j >= len(b):
 				selViol = vstat.V("mixer:selector-got-non-head", "selector called with (%s, %s) although an input has no head (consumed A=%d/%d B=%d/%d)",
@@ -332,6 +414,20 @@ func run(c Case, info *Info) *vstat.Violation {
 	var sa, sb iterable.Iterator[int]
 	var phantoms []*disparity
 	gen := 0
+	// transient Reset failures: fa/fb are the wrappers of the current sources (nil: none). While a source still has a
+	// failure to deliver, a Reset of the mixer cannot be expected to succeed; what the mixer returns then and how it
+	// behaves until the next Reset that both sources accept is not documented: in this state (limbo) calls are made
+	// but not judged, and the selector does not check its arguments. A Reset made when neither source has a failure
+	// left is a Reset "when both inputs can be reset": it must succeed and restart the merge completely.
+	var fa, fb *flaky
+	limboCalls := 0
+	pending := func() bool { return (fa != nil && fa.left > 0) || (fb != nil && fb.left > 0) }
+	info.FlakyA, info.FlakyB = c.FA.active(c.KA), c.FB.active(c.KB)
+	if info.FlakyA {
+		info.FlakyErr = c.FA.Err
+	} else if info.FlakyB {
+		info.FlakyErr = c.FB.Err
+	}
 	initMixer := func() {
 		va, vb := c.A, c.B
 		if gen%2 == 1 {
@@ -348,12 +444,16 @@ func run(c Case, info *Info) *vstat.Violation {
 			info.NilInput = true
 		}
 		i, j = 0, 0
-		sa, sb = source(c.KA, a), source(c.KB, b)
-		if c.KA == KDisparity {
-			phantoms = append(phantoms, sa.(*disparity))
-		}
-		if c.KB == KDisparity {
-			phantoms = append(phantoms, sb.(*disparity))
+		sa, fa = flakySource(c.KA, a, c.FA)
+		sb, fb = flakySource(c.KB, b, c.FB)
+		limbo = false
+		for _, it := range []iterable.Iterator[int]{sa, sb} {
+			if fw, ok := it.(*flaky); ok {
+				it = fw.it
+			}
+			if d, ok := it.(*disparity); ok {
+				phantoms = append(phantoms, d)
+			}
 		}
 		m.Init(checking, sa, sb)
 		gen++
@@ -434,6 +534,17 @@ func run(c Case, info *Info) *vstat.Violation {
 	for p := 0; p < len(c.Prog); p++ {
 		wheref := func() string { return fmt.Sprintf("call #%d %c of %q", p, c.Prog[p], c.Prog) }
 		where := lazyStr(wheref)
+		if limbo && c.Prog[p] != 'r' && c.Prog[p] != 'i' {
+			// between a failed Reset and the next accepted one: the call is made, nothing is judged
+			if c.Prog[p] == 'h' {
+				m.HasNext()
+			} else {
+				m.Next()
+			}
+			limboCalls++
+			info.LimboCalls++
+			continue
+		}
 		switch c.Prog[p] {
 		case 'h':
 			got := m.HasNext()
@@ -470,9 +581,17 @@ func run(c Case, info *Info) *vstat.Violation {
 			}
 			lastH, hRun = nil, 0
 		case 'r':
+			transient := resettable && pending()
 			err := m.Reset()
 			if selViol != nil {
 				return vstat.V(selViol.Sig, "%s: during Reset: %s", where, selViol.Msg)
+			}
+			if transient {
+				// a source had a failure to deliver: neither the result nor the state of the mixer is judged
+				info.ResetTransient = true
+				limbo, limboCalls = true, 0
+				lastH, hRun = nil, 0
+				break
 			}
 			if !resettable {
 				info.ResetRefused = true
@@ -483,7 +602,15 @@ func run(c Case, info *Info) *vstat.Violation {
 				return nil
 			}
 			if err != nil {
-				return vstat.V("mixer:reset-failed", "%s: Reset returned %v although both sources can be reset", where, err)
+				return vstat.V("mixer:reset-failed", "%s: Reset returned %v although both sources can be reset%s", where, err, flakyNote(fa, fb))
+			}
+			if limbo {
+				info.ResetRecovered = true
+				if limboCalls > 0 {
+					info.RecoveredAfterRead = true
+				}
+				limbo = false
+				sawEnd, lastH, sinceReset = false, nil, 0 // what was seen before belongs to the abandoned merge
 			}
 			info.ResetOK = true
 			switch {
@@ -522,6 +649,28 @@ func run(c Case, info *Info) *vstat.Violation {
 		}
 	}
 
+	// the program ended between a failed Reset and an accepted one: Reset until both sources accept it (each call of
+	// the mixer's Reset passes at least one pending failure on; bounded anyway), then the complete merge must come out
+	for tries := 0; limbo && tries < 16; tries++ {
+		can := !pending()
+		err := m.Reset()
+		if !can {
+			continue
+		}
+		if err != nil {
+			return vstat.V("mixer:reset-failed", "Reset #%d after %q returned %v although both sources can be reset%s", tries+1, c.Prog, err, flakyNote(fa, fb))
+		}
+		info.ResetRecovered, info.RecoveredAtEnd, info.ResetOK = true, true, true
+		if limboCalls > 0 {
+			info.RecoveredAfterRead = true
+		}
+		limbo = false
+		i, j = 0, 0
+		lastH, hRun, sawEnd, sinceReset = nil, 0, false, 0
+	}
+	if limbo {
+		return nil // the mixer never passed the pending failures on: no Reset that both sources accepted, nothing to judge
+	}
 	// final drain: the rest of the merge comes out, then the mixer stays exhausted
 	lastH = nil
 	for k := 0; k <= len(a)+len(b)+1; k++ {
@@ -548,6 +697,17 @@ func run(c Case, info *Info) *vstat.Violation {
 		}
 	}
 	return nil
+}
+
+// flakyNote describes what the transiently failing sources have seen so far (for messages).
+func flakyNote(fs ...*flaky) string {
+	out := ""
+	for k, f := range fs {
+		if f != nil {
+			out += fmt.Sprintf("; source of input %d: its Reset failed %d time(s) with %q, succeeded %d time(s), %d failure(s) left", k+1, f.fails, f.err.Error(), f.oks, f.left)
+		}
+	}
+	return out
 }
 
 func sameValues(x, y []int) bool {
@@ -625,15 +785,23 @@ func (c Case) Hash() uint64 {
 	mixs(c.KB)
 	mixs(c.Sel)
 	mixs(c.Prog)
+	for _, f := range []*Flaky{c.FA, c.FB} {
+		if f != nil && f.K > 0 {
+			mix(uint64(f.K) | 0x100)
+			mixs(f.Err)
+		} else if c.FA != nil || c.FB != nil {
+			mix(0x1ff)
+		}
+	}
 	return h
 }
 
 // NonTrivial is the rule of C18: the case exercises something mixer_test.go does not - a tie between
 // the two heads, exactly one empty input, a successful Reset in the middle of the merge or on a loaded
 // look-ahead or after the end, HasNext repeated, a lying final HasNext of a source, or Init called again
-// on the mixer while a look-ahead was pending.
+// on the mixer while a look-ahead was pending, or a Reset that both sources accepted after one that a source failed.
 func (i Info) NonTrivial() bool {
-	return i.Tie || i.OneEmpty || i.ResetMid || i.ResetLook || i.ResetAtEnd || i.RepeatH || i.Phantom || i.ReInitLook
+	return i.Tie || i.OneEmpty || i.ResetMid || i.ResetLook || i.ResetAtEnd || i.RepeatH || i.Phantom || i.ReInitLook || i.ResetRecovered
 }
 
 // Classes for the histogram.
@@ -672,5 +840,16 @@ func (i Info) Classes() []string {
 	add(i.SameValueKind, "both_inputs_same_value_type")
 	add(i.SameValueKind && i.ResetOK, "both_inputs_same_value_type_and_reset_ok")
 	add(i.SameValueKind && i.ResetRefused, "both_inputs_same_value_type_and_reset_refused")
+	add(i.FlakyA && !i.FlakyB, "source_reset_fails_transiently:input_1")
+	add(!i.FlakyA && i.FlakyB, "source_reset_fails_transiently:input_2")
+	add(i.FlakyA && i.FlakyB, "source_reset_fails_transiently:both_inputs")
+	if i.ResetTransient {
+		c = append(c, "reset_failed_transiently:error_"+i.FlakyErr)
+	}
+	add(i.ResetTransient, "reset_while_a_source_fails_transiently")
+	add(i.ResetRecovered, "accepted_reset_after_a_failed_one")
+	add(i.RecoveredAfterRead, "accepted_reset_after_a_failed_one_with_calls_in_between")
+	add(i.RecoveredAfterRead && !i.RecoveredAtEnd, "accepted_reset_after_a_failed_one_with_calls_in_between_inside_the_program")
+	add(i.ResetTransient && !i.ResetRecovered, "failed_reset_never_followed_by_an_accepted_one")
 	return c
 }
